@@ -174,7 +174,9 @@ DoStream(e) ==
 \* event RootBegin{table, ans}: ForestSolver::peek_answer calls Forest::root_answer
 DoRootBegin(e) ==
   /\ pc = "idle" /\ Ph \in {"first", "second", "loop", "loopnext", "multinext", "multipeek", "multicb"}
-  /\ lastRes.res \notin {"Stopped"}
+  \* either a new peek_answer call starts, or the loop inside peek_answer goes round again
+  /\ \/ Ph # op.phase \/ op.phase \in {"loop", "multicb"}
+     \/ lastRes.res \in {"none", "QuantumExceeded", "InvalidAnswer"}
   /\ e.table + 1 = stT /\ e.ans = stA
   /\ op' = [op EXCEPT !.phase = CASE Ph = "loop" -> "loopnext"
                                   [] Ph = "multicb" -> "multinext"
